@@ -1654,7 +1654,7 @@ def run(ctx):
         "clean(clean(x)) == clean(x) on whole programs",
     ]
     ctx.cov["trusted_base"] = core.BASE_TRUST + [
-        "R2: the structural Lean models of the six fixed regexes of Cleanup agree with the `regex` engine — validated "
+        "R2: the structural Lean models of the fixed regexes of Cleanup (suppress_sys_path_injection is no longer one of them: parser oracle since F50) agree with the `regex` engine — validated "
         "token-level bounded-exhaustively and randomly on every run, not proved",
         "CPython's tokenizer and parser, the `regex` engine, `str.strip`, `str.split`: outside the model",
         "whitespace is modelled on the alphabet ASCII 0x09-0x0D, 0x20-0x7E (+ non-space non-ASCII); `\\s` and str.isspace differ on 0x1C-0x1F",
@@ -1662,6 +1662,8 @@ def run(ctx):
     ctx.assumptions += [
         "theorems about the token loop quantify over ALL token lists (kinds, strings, positions), not only those CPython produces",
         "the sentences needing CPython's grammar are exercised on generated/corpus programs only",
+        "suppress_sys_path_injection: the parser's line numbers are those of split('\\n') (no lone \\r / \\f\\r used as a line break: "
+        "there `lines[lineno - 1]` may raise IndexError, which the model reads as 'no match'); the streams contain no \\r",
     ]
     unexplained = [v for v in ctx.violations if v.get("signature") is None]
     if not unexplained and (not ctx.proofs_ok or ctx.broken):
